@@ -85,16 +85,61 @@ def as_container(x, k):
     return np.array(x, dtype=float)
 
 
-def twice(f, *args):
-    """call f twice on the SAME argument objects: a function that mutates its input or answers from a stale cache
-    gives a different second answer; returns (first result, text or None)"""
+_KEPT = {}
+
+
+def _snap(x):
+    import copy
     import numpy as np
-    r1 = f(*args)
-    r2 = f(*args)
+    if isinstance(x, np.ndarray):
+        return x.copy()
     try:
-        a1 = [np.asarray(q, dtype=float) for q in (r1 if isinstance(r1, tuple) else (r1,))]
-        a2 = [np.asarray(q, dtype=float) for q in (r2 if isinstance(r2, tuple) else (r2,))]
-        same = len(a1) == len(a2) and all(p.shape == q.shape and np.array_equal(p, q, equal_nan=True) for p, q in zip(a1, a2))
+        return copy.deepcopy(x)
     except Exception:
-        same = True
-    return r1, (None if same else "%s gives a different result when called a second time with the same argument objects" % getattr(f, "__name__", "function"))
+        return x
+
+
+def _same(a, b):
+    import numpy as np
+    try:
+        if isinstance(a, tuple) or isinstance(b, tuple):
+            return isinstance(a, tuple) and isinstance(b, tuple) and len(a) == len(b) and all(_same(p, q) for p, q in zip(a, b))
+        p, q = np.asarray(a, dtype=float), np.asarray(b, dtype=float)
+        return p.shape == q.shape and bool(np.array_equal(p, q, equal_nan=True))
+    except Exception:
+        try:
+            return a == b
+        except Exception:
+            return True
+
+
+def twice(f, *args):
+    """Call f on the given argument objects with three guards that turn hidden state into an observable difference:
+      1. the arguments are compared with a snapshot taken before the call (a function that modifies the caller's array in place
+         breaks every later conversion of the same object);
+      2. f is called a second time on the SAME objects and must return the same value (stale caches, self-inflicted mutation);
+      3. results returned earlier by the same function in this process are compared with snapshots taken when they were returned
+         (a result that is a view of a module-level scratch buffer is overwritten by the next call).
+    Returns (first result, message or None)."""
+    name = getattr(f, "__module__", "?") + "." + getattr(f, "__name__", "function")
+    snaps = [_snap(a) for a in args]
+    r1 = f(*args)
+    msg = None
+    if not all(_same(a, s_) for a, s_ in zip(args, snaps)):
+        msg = "%s modifies its argument in place (the caller's object differs after the call)" % name
+    keep1 = _snap(r1)
+    r2 = f(*args)
+    if msg is None and not _same(r1, r2):
+        msg = "%s gives a different result when called a second time with the same argument objects" % name
+    if msg is None and not _same(r1, keep1):
+        msg = "%s: the value returned by the first call changed when the function was called again" % name
+    old = _KEPT.setdefault(name, [])
+    if msg is None:
+        for (obj, snap) in old:
+            if not _same(obj, snap):
+                msg = "%s: a value returned by an earlier call was changed by a later call (results share storage)" % name
+                break
+    old.append((r1, keep1))
+    if len(old) > 4:
+        del old[0]
+    return r1, msg
